@@ -83,6 +83,10 @@ def run(ctx):
     # ---- (1) the model ----
     g = 2 if quick else 3
     ctx.tlc("Concurrency", CFG % (gset(g), "10, 20", "TRUE", "TRUE", "TRUE"), timeout=1200)
+    if not quick:
+        ctx.tlc("Concurrency", CFG % (gset(3), "10, 20, 30", "TRUE", "TRUE", "TRUE"), timeout=2400)
+        # four goroutines: 4.3e7 distinct states, about five minutes on 16 cores
+        ctx.tlc("Concurrency", CFG % (gset(4), "10, 20", "TRUE", "TRUE", "TRUE"), timeout=3000, heap="24g")
     attacks = {}
     for name, flags in (("NoFileLock", ("FALSE", "TRUE", "TRUE")), ("NoCacheLock", ("TRUE", "FALSE", "TRUE")), ("NoRuleLock", ("TRUE", "TRUE", "FALSE"))):
         r = ctx.tlc("Concurrency", CFG % (gset(2), "10, 20", *flags), timeout=300, expect_violation=True)
